@@ -248,6 +248,8 @@ xattr_apply_map_file(char *path, void *map, sqfs_xattr_writer_t *xwr) {
 				puts("\n");
 				ret = sqfs_xattr_writer_add(xwr, entry);
 				if (ret < 0) {
+					sqfs_perror(path, "storing xattr key-value pair",
+						    ret);
 					return ret;
 				}
 			}
